@@ -118,6 +118,21 @@ func checkC12(c *Check) {
 				}
 				okAll, why = false, "unexpected parameter list "+vstr(l)
 			})
+			// no element of the list is skipped inside the loop
+			if okAll {
+				var elemLoad ssa.Instruction
+				for _, st := range cellStores(r, 0) {
+					if _, ok := elemIndex(st.Val, vAny); ok {
+						elemLoad = st
+					}
+				}
+				if elemLoad != nil {
+					in, _ := Query{Fn: up, Avoid: isInstr(w)}.After(elemLoad, func(x ssa.Instruction) bool { return x == elemLoad || isReturn(x) })
+					if in != nil {
+						okAll, why = false, "an element of the parameter list can be skipped inside the loop (a per-name or per-kind filter decides which parameters are binds)"
+					}
+				}
+			}
 			c.Cond(okAll, key+":bind-list", p.Pos(w.Pos()), "{name} emitted for every parameter; truncated to the first only when Parameters[0] is not a regex", "the URL skeleton does not cover the binds of a parameter list: "+why)
 		}
 		if !found {
@@ -361,14 +376,17 @@ func checkC12(c *Check) {
 		c.Anchor("Route.Name")
 	}
 	if cu := p.Meth("flamego", "context", "URLPath"); cu != nil {
-		ok := false
+		ok, nret := true, 0
 		allInstrs(cu, func(in ssa.Instruction) {
 			if r, isR := in.(*ssa.Return); isR && len(r.Results) == 1 {
-				if cl := asCall(r.Results[0]); cl != nil && callName(&cl.Call) == "dynamic" && vField(vParam(cu, 0), "urlPath")(cl.Call.Value) {
-					ok = vParam(cu, 1)(cl.Call.Args[0]) && vParam(cu, 2)(cl.Call.Args[1])
+				nret++
+				cl := asCall(r.Results[0])
+				if cl == nil || callName(&cl.Call) != "dynamic" || !vField(vParam(cu, 0), "urlPath")(cl.Call.Value) || !vParam(cu, 1)(cl.Call.Args[0]) || !vParam(cu, 2)(cl.Call.Args[1]) {
+					ok = false
 				}
 			}
 		})
+		ok = ok && nret > 0
 		c.Cond(ok, p.FuncKey(cu)+":forwards", p.FuncPos(cu), "Context.URLPath = urlPath(name, pairs...)", "Context.URLPath does not forward its arguments unchanged to the router")
 	} else {
 		c.Anchor("context.URLPath")
